@@ -841,6 +841,42 @@ pub fn half_rejected_tail_text(rng: &mut Rng) -> String {
     t
 }
 
+/// An osu!standard map with one slider that lasts for weeks (1 BPM, 0.1x slider velocity, multiplier 0.4, long path, a few
+/// repeats): its duration in milliseconds is around or beyond `i32::MAX`. Cheap to convert (one object), but integer time
+/// arithmetic in the conversions has to cope with it.
+pub fn giant_slider_file(rng: &mut Rng) -> OsuFile {
+    let mut f = OsuFile {
+        version: Some(14),
+        mode: 0,
+        hp: Some("5".into()),
+        cs: Some("4".into()),
+        od: Some("7".into()),
+        ar: Some("8".into()),
+        sm: Some("0.4".into()),
+        tr: Some((*rng.pick(&["1", "0.5", "2"])).to_string()),
+        ..OsuFile::default()
+    };
+    f.timing.push(TimingLine { time: "0".into(), beat_len: "60000".into(), meter: "4".into(), uninherited: Some(true), effects: Some(0) });
+    f.timing.push(TimingLine { time: "0".into(), beat_len: "-1000".into(), meter: "4".into(), uninherited: Some(false), effects: Some(0) });
+    let circle = |x: i64, t: f64| ObjLine { x: x.to_string(), y: "192".into(), time: fnum(t), extra_type: 0, sound: 0, kind: ObjKind::Circle, sample: None };
+    f.objects.push(circle(100, 200.0));
+    let len = *rng.pick(&[20000.0, 100000.0, 8000.0, 50000.0]);
+    let slides = *rng.pick(&[2i64, 8, 20, 3]);
+    f.objects.push(ObjLine {
+        x: "256".into(),
+        y: "192".into(),
+        time: fnum(*rng.pick(&[1000.0, 0.0, 5000.0, 100000.0])),
+        extra_type: 0,
+        sound: 0,
+        kind: ObjKind::Slider { curve: "L|356:192".into(), slides: slides.to_string(), length: Some(fnum(len)), edge_sounds: None, edge_sets: None },
+        sample: None,
+    });
+    if rng.chance(0.5) {
+        f.objects.push(circle(300, 2_000_000_000.0));
+    }
+    f
+}
+
 /// A map that `Beatmap::check_suspicion` rejects (too dense, or first and last object more than a day apart) but that is
 /// cheap to calculate: such maps are still maps, the relational properties hold for them too.
 pub fn suspicious_cheap_file(rng: &mut Rng, mode: u8) -> OsuFile {
